@@ -57,7 +57,7 @@ type Policy struct {
 
 // LayoutFeatures - names of all variation points
 var LayoutFeatures = []string{"quote-style", "cmp-word", "assign-word", "member-de", "let-word", "prop-word", "pre-line", "inner-break",
-	"cont-indent", "comment-indent", "optional-comma", "extra-space", "opt-space", "ascii-twin", "backtick-id", "trail-comment", "final-eol", "raw-linebreak"}
+	"cont-indent", "comment-indent", "optional-comma", "extra-space", "opt-space", "ascii-twin", "backtick-id", "trail-comment", "final-eol", "raw-linebreak", "inner-blank"}
 
 func (p *Policy) pick(n int, what string) int {
 	if p == nil || !p.Rich || n <= 1 {
@@ -679,8 +679,22 @@ func Layout(lines []Line, pol *Policy) (string, LineMap) {
 						if !isHeader {
 							extra = pol.pick(3, "cont-indent")
 						}
-						b.WriteString(eol + strings.Repeat(unit, ln.Indent+extra))
+						b.WriteString(eol)
 						phys++
+						// blank or comment-only lines may stand between the lines of one
+						// bracketed construct (also right before its closing bracket)
+						switch pol.pick(6, "inner-blank") {
+						case 1:
+							b.WriteString(eol)
+							phys++
+						case 2:
+							b.WriteString(strings.Repeat(unit, ln.Indent+extra) + "// 括号内注释" + eol)
+							phys++
+						case 3:
+							b.WriteString(strings.Repeat(unit, ln.Indent+extra) + "注：括号内说明" + eol + eol)
+							phys += 2
+						}
+						b.WriteString(strings.Repeat(unit, ln.Indent+extra))
 						broke = true
 					}
 					if !broke && commaAllowed(prev, t) && pol.pick(12, "optional-comma") == 1 {
